@@ -6,6 +6,7 @@ import (
 	"errors"
 	"fmt"
 	"io"
+	"net"
 	"strings"
 )
 
@@ -52,7 +53,23 @@ var failKinds = []failKind{
 	// filtered bufio.ErrBufferFull on every path); both are ordinary kinds that must be reported.
 	{name: "reader-returns-bufio.ErrBufferFull", err: bufio.ErrBufferFull},
 	{name: "reader-returns-io.ErrNoProgress", err: io.ErrNoProgress},
+	// errors that merely WRAP io.EOF are "an error other than io.EOF" (a connection reset reported as `read tcp …: EOF`)
+	{name: "wrapped-io.EOF", err: errWrappedEOF},
+	{name: "net.OpError-wrapping-io.EOF", err: errOpEOF},
+	{name: "error-whose-Is-answers-io.EOF", err: errIsEOF},
+	{name: "wrapped-io.EOF-with-data-then-continue", err: errWrappedEOF, withData: true, once: true},
 }
+
+type isEOFErr struct{}
+
+func (isEOFErr) Error() string        { return "stream closed (injected)" }
+func (isEOFErr) Is(target error) bool { return target == io.EOF }
+
+var (
+	errWrappedEOF = fmt.Errorf("connection reset (injected): %w", io.EOF)
+	errOpEOF      = error(&net.OpError{Op: "read", Net: "tcp", Err: io.EOF})
+	errIsEOF      = error(isEOFErr{})
+)
 
 // failingReader delivers in[:k] (one byte per Read, or random chunks), then fails as fk says.
 func failingReader(in []byte, k int, fk failKind, r *Rng, oneByte bool) *scriptReader {
@@ -116,9 +133,18 @@ func runC15(w *W) {
 		r := NewRng(w.Seed, uint64(idx), 18)
 		for k := 0; k <= len(in); k++ {
 			for _, fk := range failKinds {
-				for mode := 0; mode < 2; mode++ {
+				for mode := 0; mode < 3; mode++ {
 					sr := failingReader(in, k, fk, r, mode == 0)
-					obs := parseVia(sr, budget)
+					var rd io.Reader = sr
+					if mode == 2 {
+						// the caller hands over its own bufio.Reader with a larger buffer: bufio.NewReader inside the lexer then
+						// adopts it, and look-aheads that exceed the default size now fit exactly
+						if (k+len(fk.name))%3 != 0 {
+							continue
+						}
+						rd = bufio.NewReaderSize(sr, 8192)
+					}
+					obs := parseVia(rd, budget)
 					w.Count("failing-reader-runs")
 					if obs.Panicked || obs.Budget {
 						w.Count("skipped:prefix-panic-or-budget(C01/C02)")
@@ -136,6 +162,8 @@ func runC15(w *W) {
 					how := "one byte per Read"
 					if mode == 1 {
 						how = "random chunk per Read"
+					} else if mode == 2 {
+						how = "random chunk per Read, behind the caller's bufio.NewReaderSize(r, 8192)"
 					}
 					w.Report(Finding{Kind: "reader-error-lost", Key: "reader-error-lost@" + fk.name, Input: fmt.Sprintf("%q", in), InputHex: hexs(in),
 						Detail: fmt.Sprintf("reader delivers %d of %d bytes (%s) then returns %q (%s); the failing Read was issued %d time(s); Parse returned %d statement(s) and err=%q",
